@@ -139,8 +139,10 @@ def norm_status(code):
     return 1
 
 
-def run_cli(argv, world=None, env=None, files=None, reset=True, keep_state=False):
-    """One CLI invocation.  argv excludes the program name."""
+def run_cli(argv, world=None, env=None, files=None, reset=True, keep_state=False, stdout_mode='capture'):
+    """One CLI invocation.  argv excludes the program name.
+    stdout_mode: 'capture' (text captured as is), 'closed' (the process was started with stdout and stderr closed: sys.stdout is None),
+    'ascii' (stdout is a strict ASCII text stream, as under LANG=C / PYTHONIOENCODING=ascii)."""
     global _ENTRY_CODE
     if world is None:
         world = vnet.World()
@@ -153,6 +155,12 @@ def run_cli(argv, world=None, env=None, files=None, reset=True, keep_state=False
     old_path = list(sys.path)
     old_env = dict(os.environ)
     out, err = io.StringIO(), io.StringIO()
+    raw = None
+    if stdout_mode == 'closed':
+        out, err = None, None
+    elif stdout_mode == 'ascii':
+        raw = io.BytesIO()
+        out = io.TextIOWrapper(raw, encoding='ascii', errors='strict', newline='', write_through=True)
     sys.argv = [ENTRY] + list(argv)
     sys.stdout, sys.stderr = out, err
     os.environ.pop('NO_COLOR', None)
@@ -183,8 +191,14 @@ def run_cli(argv, world=None, env=None, files=None, reset=True, keep_state=False
         os.environ.clear()
         os.environ.update(old_env)
     res.status = status
-    res.stdout = out.getvalue()
-    res.stderr = err.getvalue()
+    if stdout_mode == 'closed':
+        res.stdout, res.stderr = '', ''
+    elif stdout_mode == 'ascii':
+        res.stdout = raw.getvalue().decode('ascii', 'replace')
+        res.stderr = err.getvalue()
+    else:
+        res.stdout = out.getvalue()
+        res.stderr = err.getvalue()
     res.world = world
     res.clock = world.max_clock()
     res.ops = world.ops
